@@ -198,6 +198,38 @@ def check_obligations(prop, allowed=frozenset()):
     return res
 
 
+
+# ------------------------------------------------------------------ independent re-check (thorough tier)
+COQCHK_STDLIB_AXIOMS = {
+    # axioms the standard library itself declares and that the loaded closure of an R-file may contain
+    "Coq.Reals.ClassicalDedekindReals.sig_forall_dec", "Coq.Reals.ClassicalDedekindReals.sig_not_dec",
+    "Coq.Logic.FunctionalExtensionality.functional_extensionality_dep", "Coq.Logic.Classical_Prop.classic",
+    "Coq.Logic.ProofIrrelevance.proof_irrelevance", "Coq.Logic.Eqdep.Eq_rect_eq.eq_rect_eq",
+    "Coq.Logic.ClassicalEpsilon.constructive_indefinite_description",
+    "Coq.Logic.PropExtensionality.propositional_extensionality",
+}
+
+
+def coqchk(prop, timeout=1500):
+    """Re-check props/<prop>.vo and everything it depends on with the independent checker."""
+    t0 = time.time()
+    rc, out = sh(["timeout", str(timeout), "coqchk", "-silent", "-o", "-Q", "theories", "VOPy", "-Q", "gen", "VOPyGen", "-Q", "props", "VOPyProps", f"VOPyProps.{prop}"], cwd=COQ, timeout=timeout + 30)
+    res = {"ok": False, "axioms": [], "wall_s": 0.0, "cmd": f"cd /verif/coq && coqchk -silent -o -Q theories VOPy -Q gen VOPyGen -Q props VOPyProps VOPyProps.{prop}"}
+    m = re.search(r"\* Axioms:(.*?)\n\s*\n\* Constants/Inductives relying on type-in-type:(.*?)\n\s*\n\* Constants/Inductives relying on unsafe \(co\)fixpoints:(.*?)\n\s*\n\* Inductives whose positivity is assumed:(.*?)\n", out + "\n", flags=re.S)
+    res["wall_s"] = round(time.time() - t0, 1)
+    if rc != 0 or not m:
+        res["message"] = out[-800:]
+        return res
+    ax = [a.strip() for a in m.group(1).split("\n") if a.strip() and a.strip() != "<none>"]
+    res["axioms"] = ax
+    others = [g.strip() for g in (m.group(2), m.group(3), m.group(4))]
+    bad = [a for a in ax if a not in COQCHK_STDLIB_AXIOMS]
+    if bad or any(o != "<none>" for o in others):
+        res["message"] = f"coqchk: unexpected axioms {bad} / unsafe flags {others}"
+        return res
+    res["ok"] = True
+    return res
+
 # ------------------------------------------------------------------ model driver
 def hexq(x):
     """exact rational of a python float/int/Fraction as 'n/d' in hex."""
